@@ -657,7 +657,7 @@ def confirm_tree_finding(f):
     if res is None:
         return {"confirmed": False, "note": "tree not replayable (arrays)"}
     for ev, (c, l) in zip(envs, res):
-        same = (c == l) and (struct_bits(c) == struct_bits(l) or c == 0)
+        same = (c == l) and (struct_bits(c) == struct_bits(l))
         if not same:
             return {"confirmed": True, "env": ev, "c": c, "llvm": l}
     return {"confirmed": False, "tried": len(envs)}
@@ -788,12 +788,18 @@ def confirm_kernel(rec, families):
                 v = ROUNDING_TABLE[k % len(ROUNDING_TABLE)]
                 if mode == "zeros" or (mode == "mixed" and k % 2 == 0):
                     v = 0.0
-                vals.append(str(__import__("fractions").Fraction(float(v))))
+                if mode == "negative zeros" or (isinstance(mode, tuple) and mode[1] == name):
+                    vals.append("-0.0")  # token understood by replay.real_run (a Fraction has no signed zero)
+                elif isinstance(mode, tuple):
+                    vals.append("0")
+                else:
+                    vals.append(str(__import__("fractions").Fraction(float(v))))
                 k += 1
             t["vals"] = vals
         return d2
 
-    for mode in ("rounding", "zeros", "mixed"):
+    # ("-0.0 in", T): tensor T holds negative zeros, the others positive zeros
+    for mode in ["rounding", "zeros", "mixed", "negative zeros"] + [("-0.0 in", n) for n in dec["inputs"]]:
         dv = valued(mode)
         a = replay.real_run(req, dv, backend="llvm")
         b = replay.real_run(req, dv, backend="cffi")
